@@ -171,6 +171,9 @@ class Acceptor(tyming.Tymee):
             self.ss.close()  #close socket
             self.ss = None
             self.opened = False
+        while self.axes:  # close accepted but not yet serviced connections
+            cs, ca = self.axes.popleft()
+            cs.close()
 
     def accept(self):
         """
@@ -269,6 +272,7 @@ class Server(Acceptor):
         while self.axes:
             cs, ca = self.axes.popleft()
             if ca != cs.getpeername() or self.eha[1] != cs.getsockname()[1]: # only port on eha
+                cs.close()  # not kept so close it
                 raise ValueError("Accepted socket host addresses malformed for "
                                  "peer. ca {0} != {1} or ha port {2} != {3}\n"
                                  "".format(ca, cs.getpeername(), self.eha, cs.getsockname()))
@@ -547,6 +551,7 @@ class ServerTls(Server):
         while self.axes:
             cs, ca = self.axes.popleft()
             if ca != cs.getpeername() or self.eha[1] != cs.getsockname()[1]: # only port on eha
+                cs.close()  # not kept so close it
                 raise ValueError("Accepted socket host addresses malformed for "
                                  "peer. ca {0} != {1} or ha port {2} != {3}\n"
                                  "".format(ca, cs.getpeername(), self.eha, cs.getsockname()))
